@@ -160,6 +160,29 @@ func vrDo(rq *vrReq, ans *vrAns) {
 		} else {
 			ans.Note = "no vector has this inner environmental score"
 		}
+	case "views": // Args[0] = base part, Args[1] = base+temporal part of rq.Vector
+		e, err := NewEnvironmental().Decode(rq.Vector)
+		b, err1 := NewBase().Decode(rq.Args[0])
+		tm, err2 := NewTemporal().Decode(rq.Args[1])
+		if err != nil || err1 != nil || err2 != nil {
+			ans.Err = fmt.Sprint(err, err1, err2)
+			ans.Ok = true
+			return
+		}
+		eb, et, tb := e.BaseMetrics(), e.TemporalMetrics(), tm.BaseMetrics()
+		ans.Out = []string{
+			"base score through the environmental object", fmt.Sprint(eb.Score()), fmt.Sprint(b.Score()),
+			"base severity through the environmental object", fmt.Sprint(eb.Severity()), fmt.Sprint(b.Severity()),
+			"base encoding through the environmental object", eb.String(), b.String(),
+			"base score through the temporal object", fmt.Sprint(tb.Score()), fmt.Sprint(b.Score()),
+			"base severity through the temporal object", fmt.Sprint(tb.Severity()), fmt.Sprint(b.Severity()),
+			"base encoding through the temporal object", tb.String(), b.String(),
+			"temporal score through the environmental object", fmt.Sprint(et.Score()), fmt.Sprint(tm.Score()),
+			"temporal severity through the environmental object", fmt.Sprint(et.Severity()), fmt.Sprint(tm.Severity()),
+			"temporal encoding through the environmental object", et.String(), tm.String(),
+			"base score through the environmental object's temporal view", fmt.Sprint(et.BaseMetrics().Score()), fmt.Sprint(b.Score()),
+		}
+		ans.Ok = true
 	case "decode":
 		var err error
 		switch rq.Level {
@@ -241,6 +264,29 @@ func vrMatch(x float64, k int, negzero bool) bool {
 
 func vrDo(rq *vrReq, ans *vrAns) {
 	switch rq.Op {
+	case "views": // Args[0] = base part, Args[1] = base+temporal part of rq.Vector
+		e, err := NewEnvironmental().Decode(rq.Vector)
+		b, err1 := NewBase().Decode(rq.Args[0])
+		tm, err2 := NewTemporal().Decode(rq.Args[1])
+		if err != nil || err1 != nil || err2 != nil {
+			ans.Err = fmt.Sprint(err, err1, err2)
+			ans.Ok = true
+			return
+		}
+		eb, et, tb := e.BaseMetrics(), e.TemporalMetrics(), tm.BaseMetrics()
+		ans.Out = []string{
+			"base score through the environmental object", fmt.Sprint(eb.Score()), fmt.Sprint(b.Score()),
+			"base severity through the environmental object", fmt.Sprint(eb.Severity()), fmt.Sprint(b.Severity()),
+			"base encoding through the environmental object", eb.String(), b.String(),
+			"base score through the temporal object", fmt.Sprint(tb.Score()), fmt.Sprint(b.Score()),
+			"base severity through the temporal object", fmt.Sprint(tb.Severity()), fmt.Sprint(b.Severity()),
+			"base encoding through the temporal object", tb.String(), b.String(),
+			"temporal score through the environmental object", fmt.Sprint(et.Score()), fmt.Sprint(tm.Score()),
+			"temporal severity through the environmental object", fmt.Sprint(et.Severity()), fmt.Sprint(tm.Severity()),
+			"temporal encoding through the environmental object", et.String(), tm.String(),
+			"base score through the environmental object's temporal view", fmt.Sprint(et.BaseMetrics().Score()), fmt.Sprint(b.Score()),
+		}
+		ans.Ok = true
 	case "decode":
 		m, err := NewEnvironmental().Decode(rq.Vector)
 		if err != nil {
